@@ -8,7 +8,8 @@ least one interval apart; every frame is fmt(one of the indicator values, curren
 Automatic mode: CrossHair follows one thread, so `threading.Thread/Event` and `time.sleep` inside
 clikit.ui.components.progress_indicator are replaced FROM THE HARNESS by sequential stubs and the SCHEDULE becomes the
 symbolic input: how many spinner iterations run before / between / after the main thread's operations, how far the
-clock moves at each, which operations the body performs and how it ends (normally, Exception, KeyboardInterrupt).
+clock moves at each, which operations the body performs and how it ends (normally, Exception, KeyboardInterrupt), and whether a spinner iteration is in flight at that moment
+(it then completes while the caller waits in join()).
 Checked: the stop event is set and the spinner joined on every exit, the last frame after a normal exit is the end
 message, the emulated terminal line holds exactly one frame after every write pair.
 Preemption INSIDE the two-write redraw (erase, then frame) is the recorded known finding C19-torn-frame (no lock).
@@ -66,6 +67,7 @@ class StubEvent:
 
 class StubThread:
     instances = []
+    on_join = None        # the harness may let one spinner iteration that passed the loop check before the stop event finish here
 
     def __init__(self, target=None):
         self.target, self.started, self.joins = target, 0, 0
@@ -76,6 +78,9 @@ class StubThread:
 
     def join(self):
         self.joins += 1
+        cb, StubThread.on_join = StubThread.on_join, None
+        if cb is not None:
+            cb()
 
 
 class StubThreading:
@@ -215,9 +220,10 @@ def _line_after(data):
     return line
 
 
-def _auto_case(ops, exit_kind, ansi, pre_spins, interval_s):
+def _auto_case(ops, exit_kind, ansi, pre_spins, interval_s, inflight=False):
     clock = Clock(1000)
     with Patched(clock, threads=True):
+        StubThread.on_join = None
         st = BufferedOutputStream()
         out = Output(st, AnsiFormatter(forced=True) if ansi else PlainFormatter())
         pi = ProgressIndicator(out, None, interval_s * 1000)
@@ -255,6 +261,11 @@ def _auto_case(ops, exit_kind, ansi, pre_spins, interval_s):
                         clock.t += 1
                     if ansi and not _frame_ok(_line_after(st.fetch()), msg[0]):
                         return False                 # the terminal line shows exactly one frame: current indicator value + current message
+                if inflight:
+                    # the spinner is inside an iteration (past its loop check) when the body ends: that iteration completes while
+                    # the caller's thread waits in join() - whatever it draws must not end up after the final frame
+                    clock.t += interval_s
+                    StubThread.on_join = pi.advance
                 if exit_kind == 1:
                     raise BodyError("body failed")
                 if exit_kind == 2:
@@ -280,7 +291,7 @@ def _auto_case(ops, exit_kind, ansi, pre_spins, interval_s):
         return True
 
 
-def auto(o1: int, o2: int, o3: int, o4: int, exit_kind: int, ansi: bool, pre_spins: int, interval_s: int) -> bool:
+def auto(o1: int, o2: int, o3: int, o4: int, exit_kind: int, ansi: bool, pre_spins: int, interval_s: int, inflight: bool) -> bool:
     """
     pre: 0 <= o1 < 4 and 0 <= o2 < 4 and 0 <= o3 < 4 and 0 <= o4 < 4 and 0 <= exit_kind <= 2 and 0 <= pre_spins <= 2 and 1 <= interval_s <= 2
     pre: PART["n"] > 3 or o4 == 0
@@ -288,7 +299,7 @@ def auto(o1: int, o2: int, o3: int, o4: int, exit_kind: int, ansi: bool, pre_spi
     post: _
     """
     ops = [BODY_OPS[conc_int(o, 0, 3)] for o in (o1, o2, o3, o4)][: PART["n"]]
-    return untraced(_auto_case, ops, conc_int(exit_kind, 0, 2), conc_bool(ansi), conc_int(pre_spins, 0, 2), conc_int(interval_s, 1, 2))
+    return untraced(_auto_case, ops, conc_int(exit_kind, 0, 2), conc_bool(ansi), conc_int(pre_spins, 0, 2), conc_int(interval_s, 1, 2), conc_bool(inflight))
 
 
 def auto_twin(o1: int, o2: int, o3: int, o4: int, exit_kind: int, ansi: bool, pre_spins: int, interval_s: int) -> bool:
